@@ -33,6 +33,8 @@ Requests (after the `C16` token):
 * `filert grid|field|basis <c|f|-> <name> <fmt|-> <tree>` — `write_*(x, name, fmt)` then
   `read_*(name, fmt)` (`writeGridFile` … `readBasisFile`; layout for the pickle of a field):
   `ok w=<ok|kind> fam=<asdf|fits|pickle|-> r=<ok|kind|-> out=<tree|->`
+* `chain grid|field <c|f|-> <name:fmt,name:fmt,…> <tree>` — a chain of file round trips (`gridChain`,
+  `fieldChain`): `ok <tree of the last object read>` or `err <kind>`
 -/
 namespace HcipyVerif.Driver.C16
 open HcipyVerif.Proto HcipyVerif.Serial
@@ -318,6 +320,25 @@ def decodeBasis (t : Tree) : Except Err ModeBasis :=
     let dummy : Grid := ⟨.cartesian, .unstructured [], .null⟩
     (ModeBasis.fromDict (t.set .grid dummy.toDict)).map fun b => { b with grid := none }
 
+/-- `name:fmt,name:fmt,…` (`fmt` = `-` for None) -/
+def parseHops (s : String) : Option (List Hop) :=
+  (s.splitOn ",").mapM fun tok =>
+    match tok.splitOn ":" with
+    | [n, f] => if n.isEmpty then none else some (n.toList, parseFmtArg f)
+    | _ => none
+
+/-- `chain` for a field; complex data as a pair of real arrays (see `filertField`) -/
+def chainField (l : Layout) (hops : List Hop) (f : Field) : Except Err Field :=
+  -- the layout of the object first written, for every hop (`field_file_chain`: the result does not
+  -- depend on the layouts)
+  let lh := hops.map fun h => (l, h)
+  if f.values.dtype.startsWith "c" then do
+    let (re, im) := deinterleave f.values.data
+    let xr ← fieldChain AsdfLib.observed lh { f with values := { f.values with data := re } }
+    let xi ← fieldChain AsdfLib.observed lh { f with values := { f.values with data := im } }
+    pure { xr with values := { xr.values with data := interleave xr.values.data xi.values.data } }
+  else fieldChain AsdfLib.observed lh f
+
 def step (st : St) : List String → St × String
   | ["dict", "gridold", t] =>
     match parseTree? t with
@@ -470,6 +491,20 @@ def step (st : St) : List String → St × String
         | .error e => (st, "err " ++ showErr e)
       else (st, "bad-op")
     | none => (st, "bad-op")
+  | ["chain", what, lay, hops, t] =>
+    match parseTree? t, parseHops hops with
+    | some t, some hs =>
+      if what == "grid" then
+        match decodeGrid t with
+        | .ok g => (st, answer ((gridChain AsdfLib.observed hs g).map Grid.toDict))
+        | .error e => (st, "err " ++ showErr e)
+      else if what == "field" then
+        match Field.fromDict t, parseLayout? lay with
+        | .ok f, some l => (st, answer ((chainField l hs f).map Field.toDict))
+        | .error e, _ => (st, "err " ++ showErr e)
+        | _, none => (st, "bad-op")
+      else (st, "bad-op")
+    | _, _ => (st, "bad-op")
   | ["ravel", shape, idx] =>
     match parseNatList? shape, parseNatList? idx with
     | some s, some i =>
